@@ -338,16 +338,18 @@ class EnumGen:
             # shuffled, the smallest value often declared first and the value n-1 (= number of constants - 1) often declared last:
             # whatever looks at the first / last COLLECTED constant sees the ends of a dense-looking range although the set has gaps
             n = rng.randint(3, 7)
-            extra = rng.randint(0, 3)
+            extra = rng.choice([0, 1, 1, 2, 2, 3])
             vals = [0] + rng.sample(range(1, n + extra), n - 1)
-            order = rng.choice(["asc", "desc", "shuffled", "shuffled", "shuffled"])
+            if (n - 1) not in vals and rng.random() < 0.6:
+                vals[rng.randrange(1, n)] = n - 1
+            order = rng.choice(["asc", "desc", "shuffled", "shuffled", "shuffled", "shuffled"])
             vals = sorted(vals) if order == "asc" else sorted(vals, reverse=True) if order == "desc" else vals
             if order == "shuffled":
                 rng.shuffle(vals)
-                if rng.random() < 0.7:
+                if rng.random() < 0.85:
                     vals.remove(0)
                     vals.insert(0, 0)
-                if (n - 1) in vals and vals[0] != n - 1 and rng.random() < 0.7:
+                if (n - 1) in vals and vals[0] != n - 1 and rng.random() < 0.85:
                     vals.remove(n - 1)
                     vals.append(n - 1)
             specs = [{"names": [nxt()], "form": "t", "ty": T, "exprs": [("lit", v)]} for v in vals]
